@@ -88,6 +88,39 @@ func inductionStep(l *Loop, v ssa.Value) (*ssa.Phi, bool) {
 		}
 	case *ssa.Convert:
 		return inductionStep(l, x.X)
+	case *ssa.Call:
+		// `for len(s) < n { …; s = append(s, x) }`: the length of a slice that grows by a constant number of
+		// elements on every back edge
+		bi, ok := x.Call.Value.(*ssa.Builtin)
+		if !ok || bi.Name() != "len" || len(x.Call.Args) != 1 {
+			return nil, false
+		}
+		sp, ok := x.Call.Args[0].(*ssa.Phi)
+		if !ok || !l.Blocks[sp.Block()] {
+			return nil, false
+		}
+		if _, isSl := sp.Type().Underlying().(*types.Slice); !isSl {
+			return nil, false
+		}
+		inside := 0
+		for i, e := range sp.Edges {
+			if !l.Blocks[sp.Block().Preds[i]] {
+				continue
+			}
+			inside++
+			ap, ok := e.(*ssa.Call)
+			if !ok {
+				return nil, false
+			}
+			ab, ok := ap.Call.Value.(*ssa.Builtin)
+			if !ok || ab.Name() != "append" || len(ap.Call.Args) != 2 || ap.Call.Args[0] != ssa.Value(sp) {
+				return nil, false
+			}
+			if k, ok := constLenOfBuf(ap.Call.Args[1]); !ok || k < 1 {
+				return nil, false
+			}
+		}
+		return sp, inside > 0
 	}
 	if phi == nil || !l.Blocks[phi.Block()] {
 		return nil, false
@@ -153,6 +186,11 @@ func (p *Prog) classifyLoop(fn *ssa.Function, l *Loop) (loopClass, bool) {
 	if lc, ok := p.geometricLoop(fn, l); ok {
 		return lc, true
 	}
+	// the decoding loop of a variable-byte-integer decoder of another shape (per-byte step in a helper): by
+	// evaluation (C15 R15.6) it gives up at the fifth byte however long the input is
+	if r := p.vbiEvalFor(fn); r != nil && r.ok(fn) && r.boundedWork[fn] && len(AllLoops(fn)) == 1 {
+		return loopClass{Kind: "geometric", Bound: "const", Why: "decoder of a variable byte integer: by evaluation it stops at the fifth byte at the latest, whatever follows (C15 R15.6)"}, true
+	}
 	// counted and range loops
 	for b := range l.Blocks {
 		iff, ok := terminator(b).(*ssa.If)
@@ -189,6 +227,21 @@ func (p *Prog) classifyLoop(fn *ssa.Function, l *Loop) (loopClass, bool) {
 			phi, ok := inductionStep(l, ind)
 			if !ok || !definedOutside(l, bound) {
 				return loopClass{}, false
+			}
+			// a counter narrower than the type it is compared in (`for i := uint8(0); int(i) < len(codes); i++`) wraps
+			// around before it reaches a bound above its own range
+			if cv, isConv := ind.(*ssa.Convert); isConv {
+				ft, ok1 := cv.X.Type().Underlying().(*types.Basic)
+				tt, ok2 := cv.Type().Underlying().(*types.Basic)
+				if ok1 && ok2 && p.U.Sizes.Sizeof(ft) < p.U.Sizes.Sizeof(tt) {
+					lim := int64(1)<<uint(p.U.Sizes.Sizeof(ft)*8) - 1
+					if ft.Info()&types.IsUnsigned == 0 {
+						lim = int64(1)<<uint(p.U.Sizes.Sizeof(ft)*8-1) - 1
+					}
+					if k, isC := constInt(bound); !isC || k > lim {
+						return loopClass{}, false
+					}
+				}
 			}
 			// the induction variable must be able to pass the bound without wrapping around in its own type
 			// (`for b := byte(0); b <= 255; b++` never ends)
